@@ -468,7 +468,7 @@ Theorem malformed_created_no_manifest (marshal : manifest -> str) (H : str -> st
         (H_empty : H empty_json = empty_json_digest) f tc fa s at_ o now s' r v :
   ann_get (created_key f) (o_ann o) = Some v -> ~ RFC3339 v ->
   pack marshal H f tc fa s at_ o now = (s', r) ->
-  (exists e, r = Err e /\ (must_reject f at_ o = false -> fa = None -> e = EInvalidDateTime)) /\
+  (exists e, r = Err e /\ (must_reject f at_ o = false -> fa = None -> t_key tc <> KFile -> e = EInvalidDateTime)) /\
   (exists evs, steps s s' evs /\ Forall (blob_ev H) evs) /\
   only_empty_blob_added H (s_store s) (s_store s').
 Proof.
